@@ -13,6 +13,7 @@ import RtcModel.Lemmas.C15Ext
 import RtcModel.Lemmas.C15Rtcp
 import RtcModel.Lemmas.C15NackBuf
 import RtcModel.Lemmas.C15Utf8
+import RtcModel.Lemmas.C15Apt
 
 namespace RtcModel.Theorems.C15
 open RtcModel.C15 RtcModel.Generated
@@ -206,6 +207,16 @@ theorem rtx_alloc_spec (used : List UInt8) :
   · obtain ⟨a, b, c, d⟩ := this.1 pt hpt
     exact ⟨by omega, by omega, c, fun q hq1 hq2 => d q (by omega) hq2⟩
   · exact this.2 hn q (by omega) (by omega)
+
+/-- **apt_roundtrip**: the association `a=fmtp:<rtx> apt=<primary>` that `append_rtx_to_section` writes is
+read back by `parse_apt` / `extract_rtx_apt_map` for every pair of payload types 0..255. -/
+theorem apt_roundtrip (rtx primary : Fin 256) :
+    parseApt (aptLower ++ dec3 primary.val) = some (u8 primary.val) ∧
+    extractApt [(fmtpKey, some (dec3 rtx.val ++ 0x20 :: (aptLower ++ dec3 primary.val)))] [] =
+      [(u8 rtx.val, u8 primary.val)] := by
+  refine ⟨parseApt_dec3 primary, ?_⟩
+  simp only [extractApt, ne_eq, not_true_eq_false, if_false, splitFirstSpace_dec3 rtx, parseU8_dec3 rtx,
+    parseApt_dec3 primary, List.filter_nil]
 
 /-- every RTCP packet this stack serialises is classified as RTCP by `is_rtcp` (the demultiplexer's test) -/
 theorem is_rtcp_own_output (p : Rtcp) (bs : Bytes) (h : marshalOne p = .ok bs) : isRtcp bs = true := by
